@@ -13,11 +13,14 @@ import (
 )
 
 type Violation struct {
-	Kind    string      `json:"kind"` // assert | panic
-	Msg     string      `json:"msg"`
-	Where   string      `json:"where"`
-	Nondets []NondetRec `json:"nondets"`
-	Decs    string      `json:"decisions"`
+	Kind       string      `json:"kind"` // assert | panic
+	Msg        string      `json:"msg"`
+	Where      string      `json:"where"`
+	Nondets    []NondetRec `json:"nondets"`
+	Decs       string      `json:"decisions"`
+	Reproduced bool        `json:"reproduced_natively"`
+	ReplayNote string      `json:"replay_note"`
+	ReplayPath string      `json:"replay_path"`
 }
 
 type PathResult struct {
